@@ -618,7 +618,7 @@ class MiniSSH:
 
     # per-direction algorithm lists (RFC 4253 7.1 negotiates each direction separately): set e.g.
     # mini.mac_algs_cs = [b'hmac-sha2-256-etm@openssh.com']; mini.mac_algs_sc = [b'hmac-sha2-256']
-    enc_algs_cs = enc_algs_sc = mac_algs_cs = mac_algs_sc = None
+    enc_algs_cs = enc_algs_sc = mac_algs_cs = mac_algs_sc = comp_algs_cs = comp_algs_sc = None
 
     def _dir(self, what, direction):
         v = getattr(self, '%s_algs_%s' % (what, direction))
@@ -630,7 +630,8 @@ class MiniSSH:
             kex.append(STRICT_C if self.is_client else STRICT_S)
         payload = (bytes([MSG_KEXINIT]) + self.rng(16) + namelist(kex) + namelist(self.hostkey_algs) +
                    namelist(self._dir('enc', 'cs')) + namelist(self._dir('enc', 'sc')) +
-                   namelist(self._dir('mac', 'cs')) + namelist(self._dir('mac', 'sc')) + namelist(self.comp_algs) * 2 +
+                   namelist(self._dir('mac', 'cs')) + namelist(self._dir('mac', 'sc')) +
+                   namelist(self._dir('comp', 'cs')) + namelist(self._dir('comp', 'sc')) +
                    namelist([]) * 2 + b'\0' + u32(0))                      # RFC 4253 7.1
         self.our_kexinit_payload = payload
         self._our_kexinit_out = self._tx_blocked = True
@@ -660,7 +661,7 @@ class MiniSSH:
         """Both KEXINITs are known: negotiate (RFC 4253 7.1) and start the method."""
         ours = {'kex': [a for a in self.kex_algs if a in KEX_ALGS], 'hostkey': self.hostkey_algs,
                 'enc_cs': self._dir('enc', 'cs'), 'enc_sc': self._dir('enc', 'sc'), 'mac_cs': self._dir('mac', 'cs'),
-                'mac_sc': self._dir('mac', 'sc'), 'comp_cs': self.comp_algs, 'comp_sc': self.comp_algs}
+                'mac_sc': self._dir('mac', 'sc'), 'comp_cs': self._dir('comp', 'cs'), 'comp_sc': self._dir('comp', 'sc')}
         peer, neg = self._peer_lists, {}
         for what in ('kex', 'hostkey', 'enc_cs', 'enc_sc', 'comp_cs', 'comp_sc', 'mac_cs', 'mac_sc'):
             if what.startswith('mac') and CIPHERS[neg['enc' + what[3:]]][0] in ('gcm', 'chachapoly'):
